@@ -121,7 +121,7 @@ class LatexEncodingMiddleware(_PyStringTransformerMiddleware):
                     UnicodeToLatexConversionRule(
                         rule_type=RULE_REGEX,
                         # keep math mode parts as is
-                        rule=[(re.compile(r"(?<!\\)(\$.*[^\\]\$)"), r"\1")],
+                        rule=[(re.compile(r"(?<!\\)(\$.*?[^\\]\$)"), r"\1")],
                     )
                 )
             if enclose_urls is True:
